@@ -35,7 +35,33 @@ PROPS = {
         thorough=[mc('mc_queue', '18-19,27-34', 'tso', P=3, D=2, E=1, budget=1200), mc('mc_queue', '0-9,16-17', 'tso', P=2, D=2, E=1, budget=600)],
         oracle='deadlock / livelock detector of the owning scheduler (every blocking call returns), timed pop bounded by its deadline on the virtual clock',
     ),
+    'C18': dict(
+        title='hash set/map vs reference after any history',
+        quick=[sq('sq_hash', ['--depth', '4'], budget=200)],
+        thorough=[sq('sq_hash', ['--depth', '6'], budget=1500)],
+        oracle='after every operation: size(), full iteration (each element once), find/contains/count for every key of the universe, mapped values = first inserted, all equal std::unordered_* driven by the same operations; ASan+UBSan',
+        assumptions=['operation alphabet and key universe as listed in harness/sq_hash.cpp (macro operations cross the 16/32/64 table sizes); histories up to the stated depth; deterministic harness hash function'],
+    ),
+    'C06': dict(
+        title='monotonic resources: blocks disjoint, aligned, stable; release frees all once',
+        quick=[sq('sq_mres', ['--depth', '4'], budget=200)],
+        thorough=[sq('sq_mres', ['--depth', '6'], budget=1500)],
+        oracle='interval map of live blocks (aligned, inside owned memory, pairwise disjoint, disjoint from page/oversize/destroy-task arrays read from the private fields), unique fill pattern per block re-checked at every step, recording page allocator and recording upstreams (each page/oversize block returned exactly once, to where it came from, with the same bytes/alignment), destructor order, accounting; babylon\'s own ASan poisoning active',
+        assumptions=['page sizes 256/512/4096; request alphabet around the page size and the 15-entry in-page arrays as listed in harness/sq_mres.cpp'],
+    ),
+    'C12': dict(
+        title='reusable containers match std behaviour; clearing keeps capacity for reuse',
+        quick=[sq('sq_rvec', ['--depth', '4'], budget=300)],
+        thorough=[sq('sq_rvec', ['--depth', '5'], budget=1500)],
+        oracle='element-wise equality with std::vector/std::string after every operation, size <= constructed_size <= capacity, capacity never shrinks under logical clear, accessor validity and zero growth of space_allocated() for converged workloads under ReusableManager; ASan+UBSan',
+        assumptions=['element types int, SwissString, nested SwissVector<int>; positions begin/middle/end; value alphabet of three values; aliasing-argument calls are explored in their own system'],
+    ),
 }
+
+SEQX_ASSUMPTIONS = [
+    'bounded exploration: every operation sequence over the listed alphabet up to the stated depth, breadth first, states deduplicated by a canonical form that keeps every field the implementation branches on',
+    'each transition replays its history on a fresh implementation object built from /repo/src (ASan+UBSan build) and compares with a reference model step by step; the canonical form is asserted equal on replay',
+]
 
 
 def build(targets):
@@ -164,7 +190,7 @@ def run_property(prop, tier):
             oracle=spec.get('oracle', ''),
             explanation='states = distinct state signatures (bbmc) / canonical states (seqx); transitions = visible operations executed / model transitions; every execution ran the implementation itself, there is no separate model',
         ),
-        assumptions=COMMON_ASSUMPTIONS + spec.get('assumptions', []),
+        assumptions=(SEQX_ASSUMPTIONS if all(r['kind'] == 'seqx' for r in runs) else COMMON_ASSUMPTIONS + (SEQX_ASSUMPTIONS if any(r['kind'] == 'seqx' for r in runs) else [])) + spec.get('assumptions', []),
         wall_s=round(time.time() - t_start, 2), violations=len(new_v),
         known_findings=[dict(harness=h, config=cn, message=msg) for (h, cn, msg, rp, k) in known_v],
         machinery_errors=machinery,
